@@ -114,6 +114,28 @@ def gen_host_orbit_op(d: Draw, cfg):
     return {'op': 'w.prop', 'name': name, 'kind': kind, 'target': 'host', 'args': {'value': gen_value(d, kind, n)}}
 
 
+def gen_stellar_op(d: Draw, cfg):
+    """An update of the STELLAR orbit (distance / eccentricity with respect to the star, used for insolation).
+
+    Around a star host this is the world's own orbit under another name.  Around a planet host the documented meaning is
+    "the world shares its stellar distance with its tidal host": the update belongs to the host's heliocentric orbit
+    (slot 0 of the orbit object) and must leave every satellite's orbit about the host alone."""
+    n = cfg['N']
+    star_host = cfg['host'] == 'star'
+    nb = cfg.get('n_bodies', 1)
+    how = d.weighted([('w.prop', 4), ('o.method', 3)] + ([] if star_host else [('o.set_state', 2), ('o.setter', 2)]))
+    if how in ('w.prop', 'o.method'):
+        field = d.pick(['distance', 'distance', 'eccentricity'])
+        kind = 'semi_major_axis' if field == 'distance' else 'eccentricity'
+        target = d.below(nb) if (star_host or d.chance(2, 3)) else 'host'
+        return {'op': 'stellar', 'how': how, 'field': field, 'target': target, 'sig': d.pick(['instance', 'name', 'index']),
+                'args': {'value': gen_value(d, kind, n)}}
+    # the general setters with set_stellar_orbit=True, designated by the tidal host (the documented use of the flag)
+    field = d.pick(SEP_KINDS + ['eccentricity'])
+    return {'op': 'stellar', 'how': how, 'field': field, 'target': 'host', 'sig': d.pick(['instance', 'name', 'index']),
+            'args': {'value': gen_value(d, field, n)}}
+
+
 def gen_set_states(d: Draw, cfg):
     """orbit.set_states([...]): one batched orbit-level call for several bodies."""
     n = cfg['N']
@@ -137,6 +159,8 @@ def gen_op(d: Draw, cfg, prop):
         return {'op': 'o.set_host_tide_raiser', 'body': d.below(cfg['n_bodies']), 'sig': d.pick(['instance', 'name', 'index'])}
     if cfg.get('host_tides') and prop == 'C13' and d.chance(1, 5):
         return gen_host_op(d, cfg)
+    if d.chance(1, 12):
+        return gen_stellar_op(d, cfg)
     if d.chance(1, 8 if cfg.get('n_bodies', 1) < 2 else 5):
         return gen_host_orbit_op(d, cfg)
     if d.chance(1, 10 if cfg.get('n_bodies', 1) < 2 else 5):
@@ -258,6 +282,17 @@ def model_apply(state, op, n_layers=None):
                     st['sep'] = (key, vals[pos])
                 else:
                     st[key] = vals[pos]
+        return
+    if kind == 'stellar':
+        key = 'semi_major_axis' if op['field'] == 'distance' else op['field']
+        if state.get('_star_host'):
+            st = state.setdefault('body%d' % op['target'], {})       # the stellar orbit IS the world's orbit
+        else:
+            st = state.setdefault('stellar', {})                     # the host's heliocentric orbit; no satellite moves
+        if key in SEP_KINDS:
+            st['sep'] = (key, a['value'])
+        else:
+            st[key] = a['value']
         return
     if kind != 'o.time':
         tgt = op.get('target', 0)
@@ -535,7 +570,7 @@ class OopStateEngine(EngineBase):
             hist = system.System(cfg)
         except Exception as e:
             return self._result(plan, [], counters, sets, ['cannot build system: %s: %s' % (type(e).__name__, e)], trace, 0)
-        state = {}
+        state = {'_star_host': cfg['host'] == 'star'}
         n_applied = 0
         obs_digest = []
         if cfg.get('config_orbit'):
@@ -551,6 +586,10 @@ class OopStateEngine(EngineBase):
                 applied = hist.apply(op)
             except Exception as e:
                 raised = e
+            if op['op'] == 'stellar' and applied == 'skipped' and raised is None:
+                trace.append('%2d %s -> skipped (the tide raiser has no orbit yet)' % (i, label))
+                bump('probe:stellar_op_skipped_raiser_without_orbit')
+                continue
             if op['op'] == 'w.aug':
                 if applied == 'skipped' or applied is None:
                     if raised is None:
@@ -637,6 +676,35 @@ class OopStateEngine(EngineBase):
     def _kepler_oracle(self, s, i, label, viol, bump, ride=True):
         for w in s.worlds:
             self._kepler_one(s, w, i, label, viol, bump, ride)
+        self._kepler_stellar(s, i, label, viol, bump)
+
+    def _kepler_stellar(self, s, i, label, viol, bump):
+        """Around a planet host the orbit object also carries the host's heliocentric orbit (slot 0): the same law with
+        the star's and the host's mass."""
+        if s.host is s.star or s.star is None:
+            return
+        o = s.orbit
+        try:
+            a, n, p = (o.get_semi_major_axis(s.host, for_stellar_orbit=True), o.get_orbital_frequency(s.host, for_stellar_orbit=True),
+                       o.get_orbital_period(s.host, for_stellar_orbit=True))
+        except Exception:
+            return
+        if a is None and n is None and p is None:
+            return
+        bump('probe:kepler_checks_stellar_orbit')
+        if a is None or n is None or p is None:
+            viol('kepler', 'partial-stellar-orbit', 'after step %d %s the orbit reports only part of the host\'s heliocentric (a, n, P): '
+                 'a=%s n=%s P=%s' % (i, label, system._brief(a), system._brief(n), system._brief(p)))
+            return
+        a_, n_, p_ = np.asarray(a, dtype=float), np.asarray(n, dtype=float), np.asarray(p, dtype=float)
+        mu = G * (s.star.mass + s.host.mass)
+        with np.errstate(all='ignore'):
+            r1 = np.max(np.abs(n_ ** 2 * a_ ** 3 / mu - 1.0))
+            r2 = np.max(np.abs(p_ * n_ * 86400.0 / (2 * math.pi) - 1.0))
+        if not (r1 <= 1e-9 and r2 <= 1e-12):
+            viol('kepler', 'third-law-stellar', 'after step %d %s the host\'s heliocentric orbit is reported as a=%s n=%s P=%s: '
+                 'n^2 a^3/(G(M_star+M_host)) - 1 = %.3g, P n/(2 pi) - 1 = %.3g'
+                 % (i, label, system._brief(a), system._brief(n), system._brief(p), r1, r2))
 
     def _kepler_one(self, s, w, i, label, viol, bump, ride=True):
         o = s.orbit
@@ -883,9 +951,9 @@ def _has_spin(op):
 def _abstract(state):
     out = {}
     for k, v in state.items():
-        if k == '_raiser':
+        if k.startswith('_'):
             out[k] = v
-        elif k.startswith('body') or k == 'host':
+        elif k.startswith('body') or k in ('host', 'stellar'):
             out[k] = _abstract(v)
         elif k == 'T':
             out[k] = {str(i): (x['v'], x['arr']) for i, x in v.items()}
@@ -900,6 +968,8 @@ def _trigger(op):
     """What kind of change the failing step made (used as the violation class, so one stale path = one class)."""
     if op['op'] == 'o.set_states':
         return 'set_states:' + '+'.join(sorted(('sep' if k in SEP_KINDS else k) for k in op['lists']))
+    if op['op'] == 'stellar':
+        return 'stellar-%s' % ('eccentricity' if op['field'] == 'eccentricity' else 'distance')
     if op.get('target') == 'host' and _is_orbital(op):
         return 'via-host:' + _trigger({k: v for k, v in op.items() if k != 'target'})
     if op['op'] in ('w.set_state', 'o.set_state'):
@@ -926,6 +996,15 @@ def _op_label(op):
             return ('%g' % v['v']) + ('[]' if v.get('arr') else '')
         return 'o.set_states(%s by %s; %s)' % (['body%d' % t for t in op['targets']], op.get('sig'),
                                                ', '.join('%s=[%s]' % (k, ', '.join(val0(x) for x in v)) for k, v in op['lists'].items()))
+    if op['op'] == 'stellar':
+        v = op['args']['value']
+        who = 'host' if op['target'] == 'host' else 'body%d' % op['target']
+        val = ('%g' % v['v']) + ('[]' if v.get('arr') else '') if isinstance(v, dict) and 'v' in v else 'raw'
+        call = {'w.prop': '%s.stellar_%s = %s' % (who, op['field'], val),
+                'o.method': 'o.set_stellar_%s(%s by %s, %s)' % (op['field'], who, op.get('sig'), val),
+                'o.set_state': 'o.set_state(%s by %s, %s=%s, set_stellar_orbit=True)' % (who, op.get('sig'), op['field'], val),
+                'o.setter': 'o.set_%s(%s by %s, %s, set_stellar_orbit=True)' % (op['field'], who, op.get('sig'), val)}[op['how']]
+        return call
     return _op_label1(op)
 
 
